@@ -180,7 +180,7 @@ func (e *Eval) field(o objRef, f *ast.Field, sub ast.SelectionSet) (interface{},
 	case o.obj == nil:
 		stored = e.Data.Roots[o.root][f.Name]
 		if o.root == "Mutation" {
-			e.Data.Counters[f.Name]++ // bookkeeping only: how often a mutation root field was executed
+			e.Data.Bump(f.Name) // bookkeeping only: how often a mutation root field was executed
 		}
 	case f.Name == "id" && o.obj.ID != "":
 		return o.obj.ID, true
